@@ -354,7 +354,9 @@ class Tracker:
                     scoring_method(f, x.feature)
                     for x in candidates_feature_dict[track_id]
                 ]
-                oks = scoring_reduction(oks)  # scoring reduction
+                # scoring reduction (a track with no instance left in the window has
+                # no valid score)
+                oks = scoring_reduction(oks) if len(oks) > 0 else np.nan
                 scores[f_idx][track_id] = oks
 
         return scores
@@ -388,7 +390,26 @@ class Tracker:
 
         matching_method = self._track_matching_methods[self.track_matching_method]
 
-        row_inds, col_inds = matching_method(cost_matrix)
+        # Pairs without a valid score (infinite cost) must never be matched. Give them a
+        # finite surrogate cost that is larger than any assignment of valid pairs, so the
+        # assignment problem stays feasible, and discard such matches afterwards (the
+        # detections then start new tracks).
+        invalid = ~np.isfinite(cost_matrix)
+        if invalid.any():
+            valid_costs = cost_matrix[~invalid]
+            surrogate = 1.0
+            if valid_costs.size > 0:
+                surrogate += valid_costs.max() + (
+                    valid_costs.max() - valid_costs.min() + 1.0
+                ) * (min(cost_matrix.shape) + 1)
+            row_inds, col_inds = matching_method(
+                np.where(invalid, surrogate, cost_matrix)
+            )
+            is_valid = [not invalid[row, col] for row, col in zip(row_inds, col_inds)]
+            row_inds = [row for row, v in zip(row_inds, is_valid) if v]
+            col_inds = [col for col, v in zip(col_inds, is_valid) if v]
+        else:
+            row_inds, col_inds = matching_method(cost_matrix)
         tracking_scores = [
             -cost_matrix[row, col] for row, col in zip(row_inds, col_inds)
         ]
